@@ -653,7 +653,7 @@ struct UbGuard {
             if (saslNull) return true;
             return f.checker.pendingIsPw[idx[i]] && f.checker.pending[idx[i]]->error() == QXmppPasswordReply::NoError && v2 && !s2req;
         }
-        // (since repo commit b1ba6cb a SASL2 <response/> without a SASL2 request in progress is refused, and <abort/> drops the
+        // (since repo commit e17a168 a SASL2 <response/> without a SASL2 request in progress is refused, and <abort/> drops the
         // SASL object with its replies: the two conditions above are a safety net that no script reaches any more)
         return false;
     }
